@@ -106,6 +106,18 @@ def run_property(prop, tier, seed):
                     if j.get("msg_prefix") and v["kind"] == "check" and not v["msg"].startswith(j["msg_prefix"]):
                         continue   # assertion belongs to the sibling property that shares this harness
                     reproduced = n is not None and n["outcome"] in ("panic", "hang", "crash")
+                    if not reproduced and v.get("alt_inputs") and v["kind"] != "steplimit":
+                        # the same assertion failed on other paths as well: a demonic model (e.g. unstable sort) may
+                        # predict a failure that this std version only shows for some of the inputs
+                        alt, _ = M.run_native_batch(exe, scratch, [(h, a) for a in v["alt_inputs"]], timeout=180)
+                        for a, na in zip(v["alt_inputs"], alt):
+                            same_prop = [c for c in (na.get("checks") or []) if c.split(" ")[0] == v["msg"].split(" ")[0]] if na else []
+                            if na is not None and na["outcome"] in ("panic", "hang", "crash") and (v["kind"] != "check" or same_prop):
+                                # the native run may trip over a later assertion of the same property than the model did
+                                v = dict(v, inputs=a, msg=(same_prop[0] if same_prop else v["msg"]))
+                                n = na
+                                reproduced = True
+                                break
                     entry = {"harness": h, "kind": v["kind"], "msg": v["msg"], "where": v.get("where"), "inputs": v["inputs"],
                              "native": n, "paths": v.get("count", 1)}
                     if reproduced:
